@@ -126,6 +126,9 @@ Proof. unfold run, run_from. apply run_from_fst. Qed.
 Ltac step_cases o :=
   unfold step_st, step; destruct o; cbn [fst fold_left];
   unfold mint_apply, cert_apply, wd_apply, vote_apply, prop_apply, apply_res;
+  unfold utxo_calls;
+  try match goal with |- context [utxo_effect ?e ?a ?h ?x ?r] => destruct (utxo_effect e a h x r) end;
+  try match goal with c : bool |- _ => destruct c end;
   repeat match goal with |- context [match ?r with Ok _ => _ | Err => _ | Panic => _ | OutOfFuel => _ end] => destruct r end;
   cbn [fst t_inputs t_collateral t_mint t_certs t_wdrl t_votes t_props t_mint_amt t_hash flat_map app apply_res fold_left].
 
@@ -1401,3 +1404,7 @@ Proof.
   - rewrite Hc, Hs, Hp. reflexivity.
 Qed.
 Transparent j_field j_present j_expected j_locked j_unique.
+
+(* the *_utxo entry points accept exactly the UTxOs the ledger lets be spent with that kind of witness *)
+Theorem utxo_effect_ledger e a h o rid : utxo_effect e a h o rid = ledger_utxo_effect e a h o rid.
+Proof. destruct e, a; reflexivity. Qed.
